@@ -5,7 +5,7 @@ set -u
 patch=$1; shift
 wt=$(mktemp -d /tmp/seedwt.XXXXXX)
 git -C /repo worktree add -q --detach "$wt" HEAD >/dev/null 2>&1 || exit 3
-if ! git -C "$wt" apply "$patch"; then echo "PATCH-DOES-NOT-APPLY"; git -C /repo worktree remove --force "$wt"; exit 3; fi
+if ! git -C "$wt" apply "$patch" 2>/dev/null && ! git -C "$wt" apply --3way "$patch"; then echo "PATCH-DOES-NOT-APPLY"; git -C /repo worktree remove --force "$wt"; exit 3; fi
 for pid in "$@"; do
   VSTATIC_REPO="$wt" /venv/bin/python -m vstatic check "$pid" 2>&1 | grep -v "^ANALYSED" | sed "s#$wt/##"
 done
